@@ -261,6 +261,15 @@ PROPS = {
 
 # observables the statement of each property determines (used to turn a model/implementation
 # disagreement into a concrete failing input; see check: 'determined')
+def _c04_observable(case, out):
+    m = re.search(r' TBL=(\S+)', out)
+    return _lay_keyseq(case, out) + ' table=' + (m.group(1) if m else '-')
+
+
+PROPS['C04']['determined'] = _c04_observable
+PROPS['C04']['determined_what'] = 'the order in which the key list sent to the OS changes, and whether the layer table the parser built is the one the configuration spells out'
+PROPS['C04']['norm_impl'] = _norm_crash
+PROPS['C04']['norm_model'] = _norm_crash
 PROPS['C02']['determined'] = lambda case, out: 'crash' if out.startswith('crash') else ('rej' if out.startswith('rej') else 'runs')
 PROPS['C02']['determined_what'] = 'whether event processing crashes or hangs'
 PROPS['C01']['determined'] = _kan_final
